@@ -125,6 +125,10 @@ def gen_inflate(tier, rng):
         for _ in range(2 if tier == "quick" else 8):
             calls = [[rng.choice(SIZES), rng.choice(SIZES[1:]), 0, 0] for _ in range(60)]
             scns.append(igz.scenario(len(scns), "inflate", list(st), wrap=wrap, calls=calls, tail_ai=rng.choice([1, 5, 64]), tail_ao=rng.choice([1, 9, 300]), cap=200000, mem=k % 3, meta={"family": "random"})); k += 1
+        # model-guided schedule: the harness takes the least-visited (room class, input hand-over class) from the (block_state, staged) the stream is in
+        for _ in range(1 if tier == "quick" else 4):
+            scns.append(igz.scenario(len(scns), "inflate", list(st), wrap=wrap, calls=[], tail_ai=max(n, 1), tail_ao=1 << 16, cap=max(600, 6 * n), mem=k % 3, prefill=k % 3,
+                                     meta={"family": "model-guided", "adaptive": 1 + rng.randrange(1 << 20)})); k += 1
     return scns
 
 def run(tier, replay=None):
